@@ -257,6 +257,18 @@ def gen_recipe(rng, n_files=None, defects=(), spicy=False, global_mode=None, git
                 srcs.append({"carrier": "header", "copyrights": [f"{rng.randint(1990, 2024)} {rng.choice(HOLDERS)}"],
                              "exprs": [gen_expr(rng, GOOD_IDS, GOOD_EXC)], "toml_dir": ""})
             files.append({"path": n, "kind": "text", "style": rng.choice(styles), "multi": False, "sources": srcs, "shared_table": True})
+    if global_mode == "toml" and rng.random() < 0.25 and not any(f["path"].startswith("near/") for f in files):
+        # one *closest* table for several files; the first of them (in walk order) states half of its information itself, so only
+        # the other half comes from the table - which the table must still have for the files after it
+        near = {"carrier": "toml-closest", "copyrights": [f"{rng.randint(1990, 2024)} Near Table"], "exprs": [gen_expr(rng, GOOD_IDS, [])],
+                "toml_dir": "", "toml_path": "near/**"}
+        half = rng.choice(["cop", "lic"])
+        own = {"carrier": "header", "copyrights": [f"{rng.randint(1990, 2024)} Own Half"] if half == "cop" else [],
+               "exprs": [gen_expr(rng, GOOD_IDS, [])] if half == "lic" else [], "toml_dir": ""}
+        files.append({"path": "near/a_half.py", "kind": "text", "style": "python", "multi": False, "shared_table": True,
+                      "sources": [own, dict(near, applies="lic" if half == "cop" else "cop")]})
+        for n in ("near/b_plain.c", "near/sub/c_plain.py", "near/z_plain.txt"):
+            files.append({"path": n, "kind": "text", "style": rng.choice(styles), "multi": False, "shared_table": True, "sources": [dict(near)]})
     recipe = {"files": files, "licenses": [], "global_mode": global_mode, "git": git, "defects": list(defects), "extra": []}
 
     # --- defects that act on files
@@ -498,13 +510,15 @@ def file_info(f):
     """(copyright values as lint reports them, expression texts, identifiers) per the recipe."""
     cops, exprs, ids = [], [], []
     for s in f["sources"]:
-        for c in s["copyrights"]:
+        # a closest table shared with other files supplies only the kind of information this file does not state itself
+        applies = s.get("applies", "both")
+        for c in (s["copyrights"] if applies in ("both", "cop") else []):
             if s["carrier"] in ("header", "dotlicense"):
                 cops.append("SPDX-FileCopyrightText: " + c)
             else:
                 cops.append(c)
         cops += list(s.get("raw_cops", []))
-        for e in s["exprs"]:
+        for e in (s["exprs"] if applies in ("both", "lic") else []):
             exprs.append(expr_text(e))
             ids += expr_ids(e)
     return cops, exprs, ids
